@@ -12,3 +12,6 @@ QV_INST(char16_t)
 QV_INST(char32_t)
 QV_INST(wchar_t)
 }
+namespace Qentem {
+template QNumberType Digit::stringToNumber<char>(QNumber64 &, const char *, SizeT &, SizeT) noexcept;
+}
